@@ -16,9 +16,10 @@
         o_class = name of the class of the parsed resource, o_kept = the property keys of a generic resource;
      class_accepts C r / generic_accepts r : the pydantic ENGINE's verdict for class C / GenericResource (strictness aside)
         on r taken in isolation -- universally quantified here (ANY engine), supplied per case by the harness in the tie. *)
-From Coq Require Import List Bool NArith ZArith.
-From PV Require Import Base.Str Base.Value Resolver.Consts Resolver.Resolve Resolver.Spec
-                       Typed.Schema Typed.Dispatch Typed.DispatchFacts Typed.SchemaTable Typed.SchemaChecks Typed.DispatchTable.
+From Coq Require Import List Bool NArith ZArith Permutation.
+From PV Require Import Base.Str Base.Value Resolver.Consts Resolver.Resolve Resolver.Spec Resolver.Template
+                       Typed.Schema Typed.Dispatch Typed.DispatchFacts Typed.SchemaTable Typed.SchemaChecks Typed.DispatchTable
+                       Typed.DispatchAlgebra.
 From PVGen Require Import Schema.
 Import ListNotations.
 
@@ -182,3 +183,360 @@ Example C14_ex_ssm_shaped_type_is_not_fixed :
   render_str [([47;116;58;49], VStr T_BUCKET)] T_SSM = T_BUCKET /\
   type_fixed [84;82;85;69] = false /\ render_str [] [84;82;85;69] = [116;114;117;101].
 Proof. repeat split; vm_compute; reflexivity. Qed.
+
+(* ================================================================================================================== *)
+(* The algebra of dispatch, filters and pipelines (Typed/DispatchAlgebra.v)                                           *)
+(*   parse_resources M ca ga strict defs : the validation of a whole Resources map [(logical id, definition)] into      *)
+(*     [(logical id, {| p_class; p_type |})] (class of the object, its .Type attribute), or the first error;           *)
+(*   filter_by_type bases allowed rs : resources_filtered_by_type, allowed = list of WClass c (a class object) /       *)
+(*     WType s (a type string); the result keeps the order of rs (Python: insertion order of the dict);                *)
+(*   run_steps / run_msteps : a list of resolve / expand_actions steps on one dumped resource / on a Resources map.    *)
+(* ================================================================================================================== *)
+
+(* ---- 1. the decision table: every cell ---- *)
+Theorem C14_decision_table :
+  forall (class_accepts : str -> value -> bool) (generic_accepts : value -> bool) strict r,
+    dispatch_resource RESOURCE_MODELS class_accepts generic_accepts strict r =
+    match r with
+    | VDict d =>
+        let generic := Ok {| o_class := GENERIC; o_kept := keys (props_of d) |} in
+        match type_of d with
+        | TyOther => Err EValidation
+        | TyMissing => if generic_accepts r then generic else Err EValidation
+        | TyStr s =>
+            match class_of RESOURCE_MODELS s with
+            | None => if generic_accepts r then generic else Err EValidation
+            | Some c =>
+                match class_accepts c r, strict, generic_accepts r with
+                | true, _, _ => Ok {| o_class := c; o_kept := [] |}
+                | false, true, _ => Err EValidation
+                | false, false, true => generic
+                | false, false, false => Err EValidation
+                end
+            end
+        end
+    | _ => Err EValidation
+    end.
+Proof. exact (dispatch_decision_table RESOURCE_MODELS). Qed.
+Print Assumptions C14_decision_table.
+
+(* the same, as a characterisation of success *)
+Theorem C14_dispatch_ok_iff :
+  forall (class_accepts : str -> value -> bool) (generic_accepts : value -> bool) strict r o,
+    dispatch_resource RESOURCE_MODELS class_accepts generic_accepts strict r = Ok o <->
+    exists d, r = VDict d /\
+      ((exists s c, type_of d = TyStr s /\ class_of RESOURCE_MODELS s = Some c /\ class_accepts c r = true /\
+                    o = {| o_class := c; o_kept := [] |}) \/
+       (generic_accepts r = true /\ o = {| o_class := GENERIC; o_kept := keys (props_of d) |} /\
+        (type_of d = TyMissing \/
+         exists s, type_of d = TyStr s /\
+           (class_of RESOURCE_MODELS s = None \/
+            exists c, class_of RESOURCE_MODELS s = Some c /\ class_accepts c r = false /\ strict = false)))).
+Proof. exact (dispatch_ok_iff RESOURCE_MODELS). Qed.
+Print Assumptions C14_dispatch_ok_iff.
+
+(* class or error depend on the Type field and the two verdicts ONLY: two definitions that agree on these -- even under two
+   different engines -- get the same class or the same error *)
+Theorem C14_function_of_type_and_verdicts :
+  forall (ca : str -> value -> bool) (ga : value -> bool) (ca' : str -> value -> bool) (ga' : value -> bool) strict d d',
+    type_of d = type_of d' ->
+    (forall s c, type_of d = TyStr s -> class_of RESOURCE_MODELS s = Some c -> ca c (VDict d) = ca' c (VDict d')) ->
+    ga (VDict d) = ga' (VDict d') ->
+    res_class (dispatch_resource RESOURCE_MODELS ca ga strict (VDict d)) =
+    res_class (dispatch_resource RESOURCE_MODELS ca' ga' strict (VDict d')).
+Proof. exact (dispatch_function_of_type_and_verdicts RESOURCE_MODELS). Qed.
+Print Assumptions C14_function_of_type_and_verdicts.
+
+(* the result class is the class of the Type string, or GenericResource (with every property key kept) *)
+Theorem C14_result_class :
+  forall (class_accepts : str -> value -> bool) (generic_accepts : value -> bool) strict r o,
+    dispatch_resource RESOURCE_MODELS class_accepts generic_accepts strict r = Ok o ->
+    exists d, r = VDict d /\
+      ((exists s, type_of d = TyStr s /\ class_of RESOURCE_MODELS s = Some (o_class o) /\ o_kept o = []) \/
+       (o_class o = GENERIC /\ o_kept o = keys (props_of d))).
+Proof. exact (dispatch_result_class RESOURCE_MODELS). Qed.
+Print Assumptions C14_result_class.
+
+(* never both: the same definition (same verdicts) is not a dedicated class in one mode and GenericResource in the other --
+   the two modes give the same object whenever both succeed; strictness only turns successes into errors *)
+Theorem C14_modes_agree :
+  forall (class_accepts : str -> value -> bool) (generic_accepts : value -> bool) strict strict' r o o',
+    dispatch_resource RESOURCE_MODELS class_accepts generic_accepts strict r = Ok o ->
+    dispatch_resource RESOURCE_MODELS class_accepts generic_accepts strict' r = Ok o' -> o = o'.
+Proof. exact (dispatch_modes_agree RESOURCE_MODELS). Qed.
+Print Assumptions C14_modes_agree.
+Theorem C14_nonstrict_cases :
+  forall (class_accepts : str -> value -> bool) (generic_accepts : value -> bool) r o,
+    dispatch_resource RESOURCE_MODELS class_accepts generic_accepts false r = Ok o ->
+    dispatch_resource RESOURCE_MODELS class_accepts generic_accepts true r = Ok o \/
+    (dispatch_resource RESOURCE_MODELS class_accepts generic_accepts true r = Err EValidation /\ o_class o = GENERIC /\
+     exists d s c, r = VDict d /\ type_of d = TyStr s /\ class_of RESOURCE_MODELS s = Some c /\ class_accepts c r = false).
+Proof. exact (dispatch_nonstrict_cases RESOURCE_MODELS). Qed.
+Print Assumptions C14_nonstrict_cases.
+(* a dedicated class comes out iff that class accepted the definition *)
+Theorem C14_dedicated_iff :
+  forall (class_accepts : str -> value -> bool) (generic_accepts : value -> bool) strict r o,
+    dispatch_resource RESOURCE_MODELS class_accepts generic_accepts strict r = Ok o ->
+    (o_class o <> GENERIC <->
+     exists d s c, r = VDict d /\ type_of d = TyStr s /\ class_of RESOURCE_MODELS s = Some c /\ class_accepts c r = true /\ o_class o = c).
+Proof. exact table_dedicated_iff. Qed.
+Print Assumptions C14_dedicated_iff.
+(* with strict on, a GenericResource never carries a modelled Type *)
+Theorem C14_strict_generic_unmodelled :
+  forall (class_accepts : str -> value -> bool) (generic_accepts : value -> bool) d o,
+    dispatch_resource RESOURCE_MODELS class_accepts generic_accepts true (VDict d) = Ok o -> o_class o = GENERIC ->
+    generic_accepts (VDict d) = true /\ (type_of d = TyMissing \/ exists s, type_of d = TyStr s /\ ~ In s MODELLED_TYPES).
+Proof. exact table_strict_generic_unmodelled. Qed.
+Print Assumptions C14_strict_generic_unmodelled.
+
+(* ---- 2. filter algebra, for ANY class hierarchy ---- *)
+(* filter by l1 ++ l2 = the union of the two filters: in resource order; member by member; as id-keyed maps (lookup by
+   lookup, and as Python's {**a, **b}) when logical ids are unique *)
+Theorem C14_filter_app :
+  forall (bases : str -> list str) l1 l2 rs,
+    filter_by_type bases (l1 ++ l2) rs = filter (fun ir => keeps bases l1 (snd ir) || keeps bases l2 (snd ir)) rs /\
+    (forall x, In x (filter_by_type bases (l1 ++ l2) rs) <-> In x (filter_by_type bases l1 rs) \/ In x (filter_by_type bases l2 rs)) /\
+    (NoDup (keys rs) ->
+       (forall id, lookup id (filter_by_type bases (l1 ++ l2) rs) =
+                   match lookup id (filter_by_type bases l1 rs) with Some p => Some p | None => lookup id (filter_by_type bases l2 rs) end) /\
+       Permutation (filter_by_type bases (l1 ++ l2) rs) (dict_union (filter_by_type bases l1 rs) (filter_by_type bases l2 rs))).
+Proof.
+  exact (fun bases l1 l2 rs =>
+    conj (filter_app bases l1 l2 rs) (conj (filter_app_In bases l1 l2 rs)
+      (fun Hn => conj (fun id => filter_app_lookup bases l1 l2 rs id Hn) (filter_app_dict_union bases l1 l2 rs Hn)))).
+Qed.
+Print Assumptions C14_filter_app.
+(* only the SET of wanted classes / strings matters *)
+Theorem C14_filter_order_irrelevant :
+  forall (bases : str -> list str) l1 l2 rs, incl l1 l2 -> incl l2 l1 -> filter_by_type bases l1 rs = filter_by_type bases l2 rs.
+Proof. exact filter_same_members. Qed.
+Print Assumptions C14_filter_order_irrelevant.
+Theorem C14_filter_idempotent :
+  forall (bases : str -> list str) a rs, filter_by_type bases a (filter_by_type bases a rs) = filter_by_type bases a rs.
+Proof. exact filter_idempotent. Qed.
+Print Assumptions C14_filter_idempotent.
+Theorem C14_filter_commute :
+  forall (bases : str -> list str) a b rs,
+    filter_by_type bases a (filter_by_type bases b rs) = filter_by_type bases b (filter_by_type bases a rs) /\
+    filter_by_type bases a (filter_by_type bases b rs) = filter (fun ir => keeps bases a (snd ir) && keeps bases b (snd ir)) rs.
+Proof. exact (fun bases a b rs => conj (filter_commute bases a b rs) (filter_compose bases a b rs)). Qed.
+Print Assumptions C14_filter_commute.
+Theorem C14_filter_absorb :
+  forall (bases : str -> list str) a b rs, incl a b -> filter_by_type bases a (filter_by_type bases b rs) = filter_by_type bases a rs.
+Proof. exact filter_absorb. Qed.
+Print Assumptions C14_filter_absorb.
+Theorem C14_filter_empty : forall (bases : str -> list str) rs, filter_by_type bases [] rs = [].
+Proof. exact filter_by_type_empty. Qed.
+Print Assumptions C14_filter_empty.
+(* the result is a sub-sequence of the resources: order kept (with C14_filter_keeps_ids_unique: uniqueness kept) *)
+Theorem C14_filter_keeps_order :
+  forall (bases : str -> list str) allowed rs,
+    subseq (filter_by_type bases allowed rs) rs /\ subseq (keys (filter_by_type bases allowed rs)) (keys rs) /\
+    forall i j, before i j (keys (filter_by_type bases allowed rs)) -> before i j (keys rs).
+Proof.
+  exact (fun bases allowed rs => conj (proj1 (filter_subseq bases allowed rs))
+          (conj (proj2 (filter_subseq bases allowed rs)) (filter_keeps_order bases allowed rs))).
+Qed.
+Print Assumptions C14_filter_keeps_order.
+(* every class + GenericResource, or Resource alone (C14_filter_resource_returns_all), returns everything *)
+Theorem C14_filter_everything :
+  forall (class_accepts : str -> value -> bool) (generic_accepts : value -> bool) strict defs rs,
+    parse_resources RESOURCE_MODELS class_accepts generic_accepts strict defs = Ok rs ->
+    filter_by_type bases_of (map WClass (GENERIC :: MODELLED_CLASSES)) rs = rs /\
+    filter_by_type bases_of [WClass K_Resource] rs = rs.
+Proof. exact table_filter_everything. Qed.
+Print Assumptions C14_filter_everything.
+
+(* strict mode: the filter by a modelled type STRING is the filter by the CLASS of that string *)
+Theorem C14_filter_string_is_class_strict :
+  forall (class_accepts : str -> value -> bool) (generic_accepts : value -> bool) t c defs rs,
+    class_of RESOURCE_MODELS t = Some c ->
+    parse_resources RESOURCE_MODELS class_accepts generic_accepts true defs = Ok rs ->
+    filter_by_type bases_of [WType t] rs = filter_by_type bases_of [WClass c] rs.
+Proof. exact table_filter_string_is_class_strict. Qed.
+Print Assumptions C14_filter_string_is_class_strict.
+(* either mode, exactly: the class filter returns the instances of c; the string filter returns these AND the
+   GenericResources carrying the string t (is_downgraded: only possible with strict off); the two parts are disjoint, the
+   class filter of the string filter is the class filter, and the extra ones are found by asking for GenericResource *)
+Theorem C14_filter_string_vs_class :
+  forall (class_accepts : str -> value -> bool) (generic_accepts : value -> bool) strict t c defs rs,
+    class_of RESOURCE_MODELS t = Some c ->
+    parse_resources RESOURCE_MODELS class_accepts generic_accepts strict defs = Ok rs ->
+    filter_by_type bases_of [WClass c] rs = filter (fun ir => str_eqb (p_class (snd ir)) c) rs /\
+    filter_by_type bases_of [WType t] rs = filter (fun ir => str_eqb (p_class (snd ir)) c || is_downgraded t (snd ir)) rs /\
+    Permutation (filter_by_type bases_of [WType t] rs)
+                (filter_by_type bases_of [WClass c] rs ++ filter (fun ir => is_downgraded t (snd ir)) rs) /\
+    filter_by_type bases_of [WClass c] (filter_by_type bases_of [WType t] rs) = filter_by_type bases_of [WClass c] rs /\
+    incl (filter (fun ir => is_downgraded t (snd ir)) rs) (filter_by_type bases_of [WClass GENERIC] rs).
+Proof. exact table_filter_string_vs_class. Qed.
+Print Assumptions C14_filter_string_vs_class.
+
+(* ---- 3. partition ---- *)
+Theorem C14_exactly_one :
+  forall (class_accepts : str -> value -> bool) (generic_accepts : value -> bool) strict defs rs id p c,
+    parse_resources RESOURCE_MODELS class_accepts generic_accepts strict defs = Ok rs ->
+    In (id, p) rs -> In c (GENERIC :: MODELLED_CLASSES) ->
+    (In (id, p) (filter_by_type bases_of [WClass c] rs) <-> c = p_class p).
+Proof. exact table_exactly_one. Qed.
+Print Assumptions C14_exactly_one.
+Theorem C14_partition :
+  forall (class_accepts : str -> value -> bool) (generic_accepts : value -> bool) strict defs rs,
+    parse_resources RESOURCE_MODELS class_accepts generic_accepts strict defs = Ok rs ->
+    Permutation (flat_map (fun c => filter_by_type bases_of [WClass c] rs) (GENERIC :: MODELLED_CLASSES)) rs /\
+    filter_by_type bases_of (map WClass (GENERIC :: MODELLED_CLASSES)) rs = rs /\
+    Permutation (flat_map (fun c => filter_by_type bases_of [WClass c] rs) MODELLED_CLASSES)
+                (filter (fun ir => negb (str_eqb (p_class (snd ir)) GENERIC)) rs).
+Proof. exact table_partition. Qed.
+Print Assumptions C14_partition.
+(* for ANY hierarchy in which the classes that occur are not bases of one another *)
+Theorem C14_partition_any_hierarchy :
+  forall (bases : str -> list str) cls rs,
+    flat bases cls -> NoDup cls -> Forall (fun ir => In (p_class (snd ir)) cls) rs ->
+    Permutation (flat_map (fun c => filter_by_type bases [WClass c] rs) cls) rs.
+Proof. exact filter_partition. Qed.
+Print Assumptions C14_partition_any_hierarchy.
+
+(* ---- 4. any finite sequence of resolve / expand_actions steps ---- *)
+Theorem C14_preserved_by_any_pipeline :
+  forall (class_accepts : str -> value -> bool) (generic_accepts : value -> bool) steps d r' o o',
+    (lookup K_Type d = Some VNull \/
+     exists t, lookup K_Type d = Some (VStr t) /\ (In t MODELLED_TYPES \/ type_fixed t = true \/ existsb is_raw steps = false)) ->
+    run_steps steps (VDict d) = Ok r' ->
+    dispatch_resource RESOURCE_MODELS class_accepts generic_accepts true (VDict d) = Ok o ->
+    dispatch_resource RESOURCE_MODELS class_accepts generic_accepts true r' = Ok o' ->
+    exists d', r' = VDict d' /\ lookup K_Type d' = lookup K_Type d /\ o_class o' = o_class o /\ type_attr r' = type_attr (VDict d).
+Proof. exact table_pipeline. Qed.
+Print Assumptions C14_preserved_by_any_pipeline.
+(* the Type entry itself survives, whether or not the result validates *)
+Theorem C14_pipeline_keeps_type :
+  forall steps d v r', lookup K_Type d = Some v -> survives steps v -> run_steps steps (VDict d) = Ok r' ->
+    exists d', r' = VDict d' /\ lookup K_Type d' = Some v.
+Proof. exact pipeline_keeps_type. Qed.
+Print Assumptions C14_pipeline_keeps_type.
+(* REFUTED for strict mode off: the class may change (dedicated class before, GenericResource after) *)
+Theorem C14_nonstrict_pipeline_refuted :
+  exists modelled class_accepts generic_accepts steps d v r' o o',
+    lookup K_Type d = Some v /\ survives steps v /\ run_steps steps (VDict d) = Ok r' /\
+    dispatch_resource modelled class_accepts generic_accepts false (VDict d) = Ok o /\
+    dispatch_resource modelled class_accepts generic_accepts false r' = Ok o' /\
+    o_class o' <> o_class o.
+Proof. exact pipeline_class_nonstrict_refuted. Qed.
+Print Assumptions C14_nonstrict_pipeline_refuted.
+(* whole Resources maps, strict mode: afterwards the parsed resources are the earlier ones restricted to the surviving
+   logical ids, so every filter commutes with every sequence of steps (and is unchanged by expand_actions alone) *)
+Theorem C14_filter_commutes_with_pipeline :
+  forall (class_accepts : str -> value -> bool) (generic_accepts : value -> bool) (bases : str -> list str) allowed steps defs defs' rs rs',
+    run_msteps steps defs = Ok defs' -> NoDup (keys defs) -> Forall (fun ir => dumped (snd ir)) defs ->
+    parse_resources RESOURCE_MODELS class_accepts generic_accepts true defs = Ok rs ->
+    parse_resources RESOURCE_MODELS class_accepts generic_accepts true defs' = Ok rs' ->
+    rs' = filter (fun ir => mem_str (fst ir) (keys defs')) rs /\
+    filter_by_type bases allowed rs' = filter (fun ir => mem_str (fst ir) (keys defs')) (filter_by_type bases allowed rs) /\
+    keys (filter_by_type bases allowed rs') = filter (fun id => mem_str id (keys defs')) (keys (filter_by_type bases allowed rs)) /\
+    (existsb is_mresolve steps = false -> filter_by_type bases allowed rs' = filter_by_type bases allowed rs).
+Proof.
+  exact (fun ca ga bases allowed steps defs defs' rs rs' Hr Hn Hd Hp Hp' =>
+    conj (proj1 (pipeline_map_preserves RESOURCE_MODELS ca ga steps defs defs' rs rs' Hr Hn Hd Hp Hp'))
+         (filter_commutes_with_pipeline RESOURCE_MODELS ca ga bases allowed steps defs defs' rs rs' Hr Hn Hd Hp Hp')).
+Qed.
+Print Assumptions C14_filter_commutes_with_pipeline.
+
+(* ---- 5. the live table, however many types it has ---- *)
+Theorem C14_class_of_injective :
+  forall t1 t2 c, class_of RESOURCE_MODELS t1 = Some c -> class_of RESOURCE_MODELS t2 = Some c -> t1 = t2.
+Proof. exact table_class_of_injective. Qed.
+Print Assumptions C14_class_of_injective.
+Theorem C14_class_has_one_type :
+  forall c, In c MODELLED_CLASSES ->
+    exists t, In t MODELLED_TYPES /\ class_of RESOURCE_MODELS t = Some c /\ forall t', class_of RESOURCE_MODELS t' = Some c -> t' = t.
+Proof. exact table_class_has_one_type. Qed.
+Print Assumptions C14_class_has_one_type.
+Theorem C14_class_literal :
+  forall t c, class_of RESOURCE_MODELS t = Some c ->
+    exists cs f, find_class CLASSES c = Some cs /\ find_field (c_fields cs) K_Type = Some f /\
+                 is_required f = true /\ ftype_eqb (f_type f) (TLeaf (LLit t)) = true.
+Proof. exact table_class_literal. Qed.
+Print Assumptions C14_class_literal.
+Theorem C14_generic_never_modelled : forall t, class_of RESOURCE_MODELS t <> Some GENERIC.
+Proof. exact table_generic_never_modelled. Qed.
+Print Assumptions C14_generic_never_modelled.
+Theorem C14_table_entry_iff : forall t c, In (t, c) RESOURCE_MODELS <-> class_of RESOURCE_MODELS t = Some c.
+Proof. exact table_entry_iff. Qed.
+Print Assumptions C14_table_entry_iff.
+(* no modelled class, nor GenericResource, is a base of another: isinstance against one of them is class equality *)
+Theorem C14_classes_flat :
+  forall c c', In c (GENERIC :: MODELLED_CLASSES) -> In c' (GENERIC :: MODELLED_CLASSES) -> ~ In c (bases_of c').
+Proof. exact Schema_classes_flat. Qed.
+Print Assumptions C14_classes_flat.
+
+(* ---- non-vacuity: a Resources map with an accepted bucket (A), a bucket its class refuses (B), a custom type (C), no Type (D);
+        the engine: S3Bucket accepts iff there is a BucketName property ---- *)
+Definition K_BucketName : str := [66;117;99;107;101;116;78;97;109;101].
+Definition C_S3BUCKET : str := [83;51;66;117;99;107;101;116].
+Definition T_CUSTOM : str := [67;117;115;116;111;109;58;58;88].    (* Custom::X *)
+Definition ex_engine : str -> value -> bool :=
+  fun _ r => match r with VDict d => mem_str K_BucketName (keys (props_of d)) | _ => false end.
+Definition ex_bogus (t : value) : value := VDict [(K_Type, t); (K_Properties, VDict [([66;111;103;117;115], VInt 1)])].
+Definition ex_map : list (str * value) :=
+  [([65], ex_bucket (VStr T_BUCKET)); ([66], ex_bogus (VStr T_BUCKET)); ([67], ex_bogus (VStr T_CUSTOM)); ([68], ex_bogus VNull)].
+Definition ex_map_strict : list (str * value) :=
+  [([65], ex_bucket (VStr T_BUCKET)); ([67], ex_bogus (VStr T_CUSTOM)); ([68], ex_bogus VNull)].
+Definition ex_parsed : list (str * parsed) :=
+  [([65], {| p_class := C_S3BUCKET; p_type := Some T_BUCKET |}); ([66], {| p_class := GENERIC; p_type := Some T_BUCKET |});
+   ([67], {| p_class := GENERIC; p_type := Some T_CUSTOM |}); ([68], {| p_class := GENERIC; p_type := None |})].
+Example C14_ex_parse :
+  parse_resources RESOURCE_MODELS ex_engine (fun _ => true) false ex_map = Ok ex_parsed /\
+  parse_resources RESOURCE_MODELS ex_engine (fun _ => true) true ex_map = Err EValidation /\
+  parse_resources RESOURCE_MODELS ex_engine (fun _ => true) true ex_map_strict
+    = Ok [([65], {| p_class := C_S3BUCKET; p_type := Some T_BUCKET |});
+          ([67], {| p_class := GENERIC; p_type := Some T_CUSTOM |}); ([68], {| p_class := GENERIC; p_type := None |})] /\
+  NoDup (keys ex_map) /\ class_of RESOURCE_MODELS T_BUCKET = Some C_S3BUCKET /\ In C_S3BUCKET MODELLED_CLASSES.
+Proof.
+  split; [vm_compute; reflexivity|]. split; [vm_compute; reflexivity|]. split; [vm_compute; reflexivity|].
+  split; [apply nodupb_NoDup; vm_compute; reflexivity|]. split; [vm_compute; reflexivity | apply mem_str_In; vm_compute; reflexivity].
+Qed.
+(* the string filter and the class filter DIFFER with strict off (the library returns the same ids on this template):
+   "AWS::S3::Bucket" -> A, B;  S3Bucket -> A;  GenericResource -> B, C, D;  both lists, any order -> A, B;  [] -> nothing *)
+Example C14_ex_filter_string_vs_class_nonstrict :
+  keys (filter_by_type bases_of [WType T_BUCKET] ex_parsed) = [[65]; [66]] /\
+  keys (filter_by_type bases_of [WClass C_S3BUCKET] ex_parsed) = [[65]] /\
+  keys (filter_by_type bases_of [WClass GENERIC] ex_parsed) = [[66]; [67]; [68]] /\
+  keys (filter_by_type bases_of ([WClass C_S3BUCKET] ++ [WType T_BUCKET]) ex_parsed) = [[65]; [66]] /\
+  keys (filter_by_type bases_of ([WType T_CUSTOM] ++ [WClass C_S3BUCKET]) ex_parsed) = [[65]; [67]] /\
+  keys (filter_by_type bases_of [WClass K_Resource] ex_parsed) = [[65]; [66]; [67]; [68]] /\
+  filter (fun ir => is_downgraded T_BUCKET (snd ir)) ex_parsed = [([66], {| p_class := GENERIC; p_type := Some T_BUCKET |})] /\
+  filter_by_type bases_of [WType T_BUCKET] ex_parsed <> filter_by_type bases_of [WClass C_S3BUCKET] ex_parsed.
+Proof. repeat split; try (vm_compute; reflexivity). vm_compute. discriminate. Qed.
+Example C14_ex_partition :
+  flat_map (fun c => keys (filter_by_type bases_of [WClass c] ex_parsed)) (GENERIC :: MODELLED_CLASSES) = [[66]; [67]; [68]; [65]].
+Proof. vm_compute. reflexivity. Qed.
+
+(* a pipeline on one resource: resolve (the resource step), expand_actions, the bare resolver; Ref P -> "b" *)
+Definition ex_env : env := {| params := [([80], VStr [98])]; mappings := []; conds := fun _ => Ok true |}.
+Definition ex_ref_bucket : list (str * value) :=
+  [(K_Type, VStr T_BUCKET); (K_Properties, VDict [(K_BucketName, VDict [(K_Ref, VStr [80])])])].
+Definition ex_steps : list step := [SResolve ex_env; SExpand (fun _ v => Ok v); SResolveRaw ex_env].
+Example C14_ex_pipeline :
+  run_steps ex_steps (VDict ex_ref_bucket) = Ok (ex_bucket (VStr T_BUCKET)) /\
+  existsb is_raw ex_steps = true /\ In T_BUCKET MODELLED_TYPES /\
+  dispatch_resource RESOURCE_MODELS ex_engine (fun _ => true) true (VDict ex_ref_bucket) = Ok {| o_class := C_S3BUCKET; o_kept := [] |} /\
+  dispatch_resource RESOURCE_MODELS ex_engine (fun _ => true) true (ex_bucket (VStr T_BUCKET)) = Ok {| o_class := C_S3BUCKET; o_kept := [] |}.
+Proof. split; [vm_compute; reflexivity|]. split; [reflexivity|]. split; [apply mem_str_In; vm_compute; reflexivity|]. split; vm_compute; reflexivity. Qed.
+(* a whole map: resource B hangs on a condition that is false and goes; A (a bucket) and C (custom) stay, classes unchanged *)
+Definition ex_cond_map : list (str * value) :=
+  [([65], VDict ex_ref_bucket);
+   ([66], VDict [(K_Type, VStr T_BUCKET); (K_Condition, VStr [99]); (K_Properties, VDict [(K_BucketName, VStr [122])])]);
+   ([67], ex_bogus (VStr T_CUSTOM))].
+Definition ex_msteps : list mstep := [MResolve ex_env [([99], false)]; MExpand (fun _ v => Ok v)].
+Example C14_ex_map_pipeline :
+  exists defs' rs rs',
+    run_msteps ex_msteps ex_cond_map = Ok defs' /\ keys defs' = [[65]; [67]] /\ NoDup (keys ex_cond_map) /\
+    Forall (fun ir => dumped (snd ir)) ex_cond_map /\
+    parse_resources RESOURCE_MODELS ex_engine (fun _ => true) true ex_cond_map = Ok rs /\
+    parse_resources RESOURCE_MODELS ex_engine (fun _ => true) true defs' = Ok rs' /\
+    keys (filter_by_type bases_of [WType T_BUCKET] rs) = [[65]; [66]] /\ keys (filter_by_type bases_of [WType T_BUCKET] rs') = [[65]].
+Proof.
+  eexists. eexists. eexists. split; [vm_compute; reflexivity|]. split; [vm_compute; reflexivity|].
+  split; [apply nodupb_NoDup; vm_compute; reflexivity|].
+  split; [repeat constructor; cbn [snd]; eexists; eexists; (split; [reflexivity | vm_compute; reflexivity])|].
+  split; [vm_compute; reflexivity|]. split; [vm_compute; reflexivity|]. split; vm_compute; reflexivity.
+Qed.
